@@ -300,8 +300,7 @@ func verifH_C18_tags() {
 		known = "C18-shadowed-embedded-field"
 	case 1:
 		v = &verifShadowInnerFirst{}
-		enc = map[string]any{"a": "s", "i": "t"}
-		known = "C18-shadowed-embedded-field"
+		enc = map[string]any{"a": "s", "i": "t"} // this declaration order is handled: no known finding covers it
 	case 2:
 		v = &verifStringTag{}
 		enc = map[string]any{"n": "5", "b": "true", "f": "1.5"}
